@@ -19,6 +19,7 @@ BCAST = 'broadcast use {crate::ax::rc_clone_eq, crate::ax::string_peq};'
 
 RESOLVE_OB = 'shape:emitted-file#member-types-resolve'
 UNIQUE_OB = 'shape:emitted-file#member-names-unique'
+ONEITEM_OB = 'shape:emitted-file#one-item-per-name'
 
 
 class Program(Unit):
@@ -151,7 +152,7 @@ class Program(Unit):
 
     def front_end_obligations(self, out):
         return [c.label for c in out.chunks if c.label and (c.label.startswith('shape:') or c.label.startswith('sig:'))] + \
-               ([RESOLVE_OB] if self.concern in ('C02', 'C08', 'C09') else []) + ([UNIQUE_OB] if self.concern in ('C02', 'C08') else [])
+               ([RESOLVE_OB] if self.concern in ('C02', 'C08', 'C09') else []) + ([UNIQUE_OB] if self.concern in ('C02', 'C08') else []) + ([ONEITEM_OB] if self.concern in ('C02', 'C08', 'C09') else [])
 
     def front_end_failures(self, out, vr, text):
         """compile errors whose primary span lies in a shape / signature chunk"""
@@ -168,6 +169,22 @@ class Program(Unit):
                 if info.get('kind') == 'contract' and info.get('label') and (info['label'].startswith('shape:') or info['label'].startswith('sig:')):
                     hit = info['label']
                     break
+            dupitem = re.match(r'the name `\w+` is defined multiple times', d.message)
+            if not hit and self.concern in ('C02', 'C08', 'C09') and dupitem:
+                # two items of one module carry the same name: "exactly one struct" per component fails (e.g. a self alias next to the struct)
+                for sp_ in d.spans:
+                    if os.path.basename(sp_.get('file_name', '')) != fname:
+                        continue
+                    info = out.describe(sp_['line_start'])
+                    if info.get('kind') == 'code' and str(info.get('file', '')).startswith('emitted:'):
+                        f = Failure(self.name, ONEITEM_OB, 'two emitted items of one module have the same name: ' + d.message,
+                                    [{'file': info['file'], 'line': info.get('line', 0), 'text': lines[sp_['line_start'] - 1].strip() if 0 < sp_['line_start'] <= len(lines) else '', 'what': 'emitted line'}], d.rendered)
+                        f.props = [self.concern]
+                        fails.append(f)
+                        break
+                else:
+                    other += 1
+                continue
             dup = re.match(r'field `\w+` is already declared', d.message)
             if not hit and self.concern in ('C02', 'C08') and dup:
                 # two declared members map to the same Rust field name: "exactly one field per declared element and attribute" fails
